@@ -36,6 +36,7 @@ type input struct {
 	closed   atomic.Bool
 	removed  bool
 	replaced bool
+	unreg    bool // channel of an AddInput call that has not returned yet
 	deliv    int
 }
 
@@ -77,6 +78,7 @@ type exec struct {
 	created atomic.Bool
 
 	terminated bool
+	termFinal  bool
 	stopIssued bool
 	gstopAsked bool
 	delta      time.Duration
@@ -462,10 +464,27 @@ func (e *exec) markTerminatedLocked(how string) {
 	e.tr.TerminatedAt = e.now()
 	e.tr.TermOp = int(e.opIdx.Load())
 	e.tr.TermHow = how
+	e.tr.TermInFlight = len(e.live) // provisional, finalised at the next quiescent point (wait)
+	e.tr.TermAllClosed = true
+	e.tr.TermGStopAsked = e.gstopAsked
+}
+
+// wait blocks until every other goroutine of the bubble is durably blocked and then
+// completes the record of a termination that was observed meanwhile: only now is the
+// harness's own bookkeeping (helpers, producers) guaranteed to be up to date.
+func (e *exec) wait() {
+	bubble.Wait()
+	e.mu.Lock()
+	defer e.mu.Unlock()
+	if !e.terminated || e.termFinal {
+		return
+	}
+	e.termFinal = true
 	e.tr.TermInFlight = len(e.live)
 	e.tr.TermAllClosed = true
+	e.tr.TermPending = 0
 	for _, in := range e.inputs {
-		if in.removed {
+		if in.removed || in.unreg {
 			continue
 		}
 		if !in.closed.Load() {
@@ -473,13 +492,12 @@ func (e *exec) markTerminatedLocked(how string) {
 		}
 		e.tr.TermPending += in.enq - in.deliv
 	}
-	e.tr.TermGStopAsked = e.gstopAsked
 }
 
 // settleOnce lets the discipline run for one settle quantum of virtual time.
 func (e *exec) settleOnce() {
 	time.Sleep(e.delta)
-	bubble.Wait()
+	e.wait()
 }
 
 // drain waits for quiescence receiving everything that becomes available. Progress is
@@ -492,7 +510,7 @@ func (e *exec) drain() int {
 	}
 	start := count()
 	idle := 0
-	bubble.Wait()
+	e.wait()
 	for round := 0; idle < 2 && round < 100000; round++ {
 		before := count()
 		e.recvAvailable(-1)
@@ -520,7 +538,7 @@ func (e *exec) snapshot(epilogue bool) {
 		sn.Total++
 	}
 	for _, in := range e.inputs {
-		if in.removed {
+		if in.removed || in.unreg {
 			continue
 		}
 		sn.Pending[in.p] = in.enq - in.deliv
@@ -618,7 +636,7 @@ func (e *exec) build() error {
 		e.write(in, ic.Prefill)
 	}
 	// let the producers fill the buffers before the discipline exists
-	bubble.Wait()
+	e.wait()
 	switch {
 	case s.Ver == 2 && !s.Simple:
 		d, err := priority.New(priority.Opts[Item]{Divider: e.dividerV2(), HandlersQuantity: s.H, Inputs: chans})
@@ -715,7 +733,7 @@ func (e *exec) doOp(op Op) {
 			return
 		}
 		e.write(in, op.N) // producers of removed channels keep pushing
-		bubble.Wait()
+		e.wait()
 	case "C":
 		in := e.inputs[op.P]
 		if in == nil || in.closeReq || in.removed {
@@ -724,16 +742,16 @@ func (e *exec) doOp(op Op) {
 		}
 		in.closeReq = true
 		in.cmds <- wcmd{close: true}
-		bubble.Wait()
+		e.wait()
 	case "D":
 		e.drain()
 		e.snapshot(false)
 	case "R":
-		bubble.Wait()
+		e.wait()
 		if e.recvAvailable(op.N) == 0 {
 			noop()
 		}
-		bubble.Wait()
+		e.wait()
 	case "F":
 		if len(op.Picks) == 0 || e.liveLen() == 0 || e.isTerminated() {
 			noop()
@@ -744,7 +762,7 @@ func (e *exec) doOp(op Op) {
 				break
 			}
 			e.releaseOne(abs(pk))
-			bubble.Wait()
+			e.wait()
 		}
 	case "FM":
 		if len(op.Picks) == 0 || e.liveLen() == 0 || e.isTerminated() {
@@ -757,7 +775,7 @@ func (e *exec) doOp(op Op) {
 			}
 			e.releaseOne(abs(pk))
 		}
-		bubble.Wait()
+		e.wait()
 	case "FP":
 		// release the oldest (N=0) or newest (N=1) in-flight item of priority P
 		e.mu.Lock()
@@ -777,14 +795,14 @@ func (e *exec) doOp(op Op) {
 			return
 		}
 		e.releaseOne(pos)
-		bubble.Wait()
+		e.wait()
 	case "T":
 		if op.N <= 0 {
 			noop()
 			return
 		}
 		time.Sleep(time.Duration(op.N))
-		bubble.Wait()
+		e.wait()
 	case "A":
 		if e.ad.addInput == nil || e.stopIssued || e.ctlPending(op.P) {
 			noop()
@@ -797,8 +815,9 @@ func (e *exec) doOp(op Op) {
 			old = nil
 		}
 		in := e.newInput(op.P, op.N)
+		in.unreg = true
 		e.write(in, op.M)
-		bubble.Wait()
+		e.wait()
 		e.mu.Lock()
 		e.everSet[op.P] = true
 		delete(e.removedSet, op.P)
@@ -809,6 +828,7 @@ func (e *exec) doOp(op Op) {
 		e.helper(func() {
 			e.ad.addInput(in.ch, op.P)
 			e.mu.Lock()
+			in.unreg = false
 			e.tr.Inputs[ev].Returned = true
 			e.tr.Inputs[ev].ReturnedAt = e.now()
 			e.tr.Inputs[ev].DelivAtRet = len(e.tr.Deliveries)
@@ -818,7 +838,7 @@ func (e *exec) doOp(op Op) {
 			}
 			e.mu.Unlock()
 		})
-		bubble.Wait()
+		e.wait()
 	case "X":
 		in := e.inputs[op.P]
 		if e.ad.removeInput == nil || in == nil || in.removed || e.stopIssued || e.ctlPending(op.P) {
@@ -839,14 +859,14 @@ func (e *exec) doOp(op Op) {
 			e.tr.Inputs[ev].ReadsAtRet = in.readsHi()
 			e.mu.Unlock()
 		})
-		bubble.Wait()
+		e.wait()
 	case "G":
 		if e.ad.gstop == nil || e.gstopAsked || e.stopIssued {
 			noop()
 			return
 		}
 		e.gracefulStop()
-		bubble.Wait()
+		e.wait()
 	case "S", "K":
 		if e.ad.stop == nil || e.stopIssued {
 			noop()
@@ -908,7 +928,7 @@ func (e *exec) gracefulStop() {
 // stop issues Stop() or cancels the context, waits for completion and probes that
 // nothing more is delivered afterwards.
 func (e *exec) stop(kind string) {
-	bubble.Wait()
+	e.wait()
 	e.mu.Lock()
 	e.stopIssued = true
 	e.tr.StopIssuedAt = e.now()
@@ -980,7 +1000,7 @@ func (e *exec) epilogue() {
 			in.cmds <- wcmd{close: true}
 		}
 	}
-	bubble.Wait()
+	e.wait()
 	if e.ad.gstop != nil && !e.gstopAsked {
 		e.gracefulStop()
 	}
@@ -998,7 +1018,7 @@ func (e *exec) epilogue() {
 				pos = n - 1
 			}
 			e.releaseOne(pos)
-			bubble.Wait()
+			e.wait()
 			continue
 		}
 		if got > 0 {
@@ -1010,7 +1030,7 @@ func (e *exec) epilogue() {
 			e.mu.Lock()
 			pend := 0
 			for _, in := range e.inputs {
-				if !in.removed {
+				if !in.removed && !in.unreg {
 					pend += in.enq - in.deliv
 				}
 			}
@@ -1089,9 +1109,9 @@ func Execute(t *testing.T, s Script, leakScan bool) Trace {
 				}
 			}
 			if leakScan && (tr.Terminated || tr.StopReturned) {
-				bubble.Wait()
+				e.wait()
 				time.Sleep(10)
-				bubble.Wait()
+				e.wait()
 				after := bubble.LibGoroutines()
 				for id, fr := range after {
 					if _, ok := before[id]; !ok {
